@@ -367,6 +367,10 @@ func checkC15(c c15Case, o *Obs) error {
 		}
 		r1 := runBin(30*time.Second, "", nil, append(args, "--msa", mf)...)
 		r2 := runBin(30*time.Second, msa, nil, args...) // --msa defaults to stdin
+		// the stdin path has its own channel plumbing: repeat it, a schedule-dependent failure must not hide
+		for rep := 0; rep < 4 && !r2.TimedOut && r2.Exit == 0 && r2.Stdout == r1.Stdout; rep++ {
+			r2 = runBin(30*time.Second, msa, nil, args...)
+		}
 		if r1.TimedOut || r2.TimedOut {
 			return fmt.Errorf("variants timed out (file %v, stdin %v)", r1.TimedOut, r2.TimedOut)
 		}
